@@ -32,40 +32,36 @@
      reloaded form t_reload (what an eviction followed by a reload does to a tree, by tree_reload_codec) changes no Put
      result, no timeline, no metadata and no self value of any stack of any Get.  Its invariant `rel` (same segment
      table, seq-equal valid tree under every key) and `rel_step` are ingredient (3) below, already proved.
-   NOT proved: the composition inside the storage model.  The exact remaining gap to a storage-level C02_refines over
-   Model/Storage.v (plain association lists; the only access points are tree_get / tree_store / tree_remove on st_trees
-   and seg_lookup / seg_store / seg_remove on st_segs; the index is abstracted by sel_matches over st_segs, names live in
-   the trees, so dimensions and dictionaries do not occur in it):
-     (1) a second step function cst_step : option Z -> cst_state -> st_op -> cst_state * st_out that is st_step with
-         tree_get k := ORead k on a trees cache (Model/Cache.v step, codec tr_enc/tr_dec), tree_store k t := OPut k t,
-         tree_remove k := ODelete k, and likewise seg_lookup/seg_store/seg_remove on a segments cache (sg_enc/sg_dec);
-         plus cst_maint for OEvict/OSaveCompletes/OFlushReopen on either cache.  Because a Put reads trees, merges and
-         stores them, the cache operations of one st_step depend on earlier reads: this is a fold of cache steps inside
-         put_cb_apply / st_get, not a fixed operation list — hence C02_step_simulation, not the list theorem, is the tool.
-     (2) the lemma to prove, by C02_step_simulation at every cache access:
-           StInv cst st -> admissible (no access to a key with a save in flight) ->
-           let (st', out) := st_step thr st o in let (cst', cout) := cst_step thr cst o in
-           StInv cst' st' /\ out_seq cout out
-         where StInv cst st := Inv _ tr_dec (Rel tvalid seq) (trees cache of cst) (fun k => tree_lookup k (st_trees st)) rest
-                              /\ Inv _ sg_dec (Rel sg_valid eq) (segments cache of cst) (fun k => seg_lookup k (st_segs st)) rest,
-         out_seq relates OutGet answers by seq on go_tree and equality on go_timeline / go_meta, and
-         StInv cst st -> StInv (cst_maint m cst) st for every maintenance step m (spec_step of those is the identity).
-     (3) its ingredients beyond this file: seq-congruence and validity of everything Storage does to trees —
-         put_cb_apply (t_clone, t_merge of addons, t_merge into the stored tree: clone_seq, merge_seq, t_clone_sub,
-         t_merge_sub, t_merge_wfb) and st_get (t_clone of every cover tree, merge_serial, the final average clone:
-         tree-b's eval_seq covers exactly such merge/clone expressions); sg_valid of every stored segment (seg's
-         reachable_ok, s_put_ok, plus the uint64 bounds as hypotheses); the default of a missing tree is t_empty on
-         both sides (tree_get) and of a missing segment s_empty (seg_lookup ... | None => s_empty), which is what
-         tr_dflt / sg_dflt are.
-     (4) outside Model/Storage.v altogether: the dimension store (C02_dimensions_transparent covers the cache; that the
-         cached index answers sel_matches is C07) and the dictionary coupling (C02_trees_with_dict_transparent).
-   The storage-level statement is checked on the implementation by the correspondence run (two-run comparison).  Found there: totals of floor-scaled per-bucket trees are recomputed on decode — known
-   finding scaled-totals-reloaded; hence "seq", not "teq", in the trees instance. *)
+   C02_refines_partial (Model/StorageCached.v, Proofs/StorageCachedProofs.v) — the storage-level refinement for the TREES
+     cache: cst_step is st_step of Model/Storage.v with every tree access going through Model/Cache.v
+     (Storage.Put: trees.Get, trees.Get per addon, trees.Put per callback; Storage.Get: trees.Get per cover node;
+     Delete / DeleteDataBefore: trees.Delete per callback); maintenance steps (Cache.Evict of any fraction in any order
+     the LFU allows followed by the completion of its saves, and Flush+reopen) are inserted ANYWHERE in the history.
+     Then every output of the cached run is equivalent to the output of st_run on the history without the maintenance
+     steps: Put results, timelines and metadata literally equal, profiles equal in the self value of every stack.
+     Proof: C02_cached_step_commutes (every storage operation commutes with the abstraction "what a Get of the key
+     would return", with EQUAL outputs), C02_cached_maint_is_reload (a maintenance step replaces the abstract value of
+     exactly the evicted keys by t_reload), then tree-a's C02_storage_reload_transparent.
+     What the full C02_refines of DESIGN.md would add, i.e. what this theorem leaves out — exactly:
+       (a) the SEGMENTS are kept in the plain association list of Model/Storage.v instead of a second cache; their
+           codec round-trips exactly on reachable, bounded segments (C02_segments_transparent), so the twin needs the
+           invariant "every stored segment is sg_valid" (seg's reachable_ok + the uint64 bounds as hypotheses) and the
+           same commutation proof with equality instead of t_reload;
+       (b) the tree codec is abstracted by what it decodes to (ct_enc = t_reload); the link to the bytes and to the
+           dictionaries cache is C02_trees_with_dict_transparent + C02_dicts_transparent + C02_flush_order_*, not
+           composed into one transition system; the node cap hypothesis (stored trees below MaxNodesSerialization) is
+           part of that link (tree_reload_codec), not of this theorem;
+       (c) dimensions and labels do not occur in Model/Storage.v (the index is abstracted by sel_matches; C07 and
+           C02_dimensions_transparent cover the two halves);
+       (d) hypotheses carried by the shape of the history: saves complete inside the maintenance step (excludes D11),
+           no write-back (excludes D10), client steps are atomic with respect to maintenance (sequential histories);
+       (e) totals are not claimed (known finding scaled-totals-reloaded): out_equiv compares self values per stack.
+   The storage-level statement including (a)-(c) is checked on the implementation by the correspondence run. *)
 From Coq Require Import List NArith.
 From Pyro Require Import Model.Base Model.Varint Model.Tree Model.TreeCodec Model.DimCodec Model.Lfu Model.Cache Model.FlushOrder.
 From Pyro Require Import Model.Segment Model.SegCodec Proofs.SegStruct Proofs.SegCodecProofs Proofs.TreeCodecProofs.
 From Pyro Require Model.Dict Proofs.DictProofs.
-From Pyro Require Import Model.Timeline Model.Storage Proofs.C02StorageReload.
+From Pyro Require Import Model.Timeline Model.Storage Proofs.C02StorageReload Model.StorageCached Proofs.StorageCachedProofs.
 From Pyro Require Import Proofs.CacheProofs Proofs.C02Lift Proofs.DimCodecProofs Proofs.FlushOrderProofs Proofs.TreeReloadProofs Proofs.C02Trees Proofs.C02Stores.
 Import ListNotations.
 
@@ -173,6 +169,23 @@ Theorem C02_storage_reload_get : forall rt pops sel from until,
 Proof. exact storage_reload_get. Qed.
 Print Assumptions C02_storage_reload_get.
 
+(* the cached twin of the storage model: trees behind the LFU+Badger cache, maintenance anywhere *)
+Theorem C02_refines_partial : forall rt h,
+  Forall ok_op (cstrip h) ->
+  Forall2 out_equiv (snd (c_run rt h cst_init)) (snd (st_run rt (cstrip h) st_init)).
+Proof. exact cached_storage_refines. Qed.
+Print Assumptions C02_refines_partial.
+
+Theorem C02_cached_step_commutes : forall rt o cst st, repr cst st ->
+  repr (fst (cst_step rt cst o)) (fst (st_step rt st o)) /\ snd (cst_step rt cst o) = snd (st_step rt st o).
+Proof. exact step_commutes. Qed.
+Print Assumptions C02_cached_step_commutes.
+
+Theorem C02_cached_maint_is_reload : forall m cst st, repr cst st ->
+  exists sel, repr (cst_maint m cst) (st_reload sel st).
+Proof. exact maint_sim. Qed.
+Print Assumptions C02_cached_maint_is_reload.
+
 (* one step of the simulation, for clients that are not lists of operations (the storage model calls the cache
    operation by operation): the invariant Inv relates a cache state to a plain map and is preserved by every
    admissible operation, with equivalent outputs *)
@@ -221,6 +234,17 @@ Example C02_cache_transparent_nonvacuous :
   rets (fst (run N.eq_dec w_dflt w_enc100 w_id c_empty (lower w_transparent))) = [205; 8; 8; 108]%N /\
   rets (fst (run N.eq_dec w_dflt w_enc100 w_id c_empty (lower (filter (fun o => negb (is_maint o)) w_transparent)))) = [205; 208; 208; 308]%N.
 Proof. exact c02_transparent_nonvacuous. Qed.
+
+Example C02_refines_partial_nonvacuous :
+  Forall ok_op (cstrip ex_hist) /\
+  c_lfu (cs_trees (fst (c_run None (firstn 4 ex_hist) cst_init))) = [] /\
+  match snd (c_run None ex_hist cst_init), snd (st_run None (cstrip ex_hist) st_init) with
+  | [_; _; OutGet (Some a)], [_; _; OutGet (Some b)] =>
+      go_tree a = TNode [] 0 7 [TNode [97%N] 0 7 [TNode [98%N] 3 3 []; TNode [99%N] 4 4 []]] /\
+      go_tree b = TNode [] 0 9 [TNode [97%N] 0 9 [TNode [98%N] 3 3 []; TNode [99%N] 4 4 []]]
+  | _, _ => False
+  end.
+Proof. exact cached_storage_refines_nonvacuous. Qed.
 
 Example C02_trees_transparent_nonvacuous :
   forallb (is_sync (K:=N) (V:=tnode)) wt_hist = true /\ Forall tree_op (lower wt_hist) /\
